@@ -46,6 +46,10 @@ pub enum Op {
     Rename(u16),
     InsertRow { sheet: u16, row: u32, n: u32 },
     RemoveRow { sheet: u16, row: u32, n: u32 },
+    /// `get_sheet_mut(&i)` with an index past the end (the `while let Some(..)` idiom): None
+    ProbePastEnd(u8),
+    /// edit through `get_active_sheet_mut()` (the active tab may point at an unloaded sheet)
+    EditActive { col: u32, row: u32, value: ValueSpec },
 }
 
 #[derive(Debug, Clone, Serialize, Deserialize)]
@@ -78,6 +82,9 @@ fn op_strategy() -> BoxedStrategy<Op> {
         2 => any::<u16>().prop_map(Op::Rename),
         1 => (any::<u16>(), 1u32..=10, 1u32..=3).prop_map(|(sheet, row, n)| Op::InsertRow { sheet, row, n }),
         1 => (any::<u16>(), 1u32..=10, 1u32..=3).prop_map(|(sheet, row, n)| Op::RemoveRow { sheet, row, n }),
+        1 => (0u8..3).prop_map(Op::ProbePastEnd),
+        2 => (1u32..=12, 1u32..=20, crate::gen::text::plain_text(12).prop_map(|s| ValueSpec::Text(if s.is_empty() { "active".into() } else { s })))
+            .prop_map(|(col, row, value)| Op::EditActive { col, row, value }),
     ]
     .boxed()
 }
@@ -245,6 +252,22 @@ fn apply(book: &mut Spreadsheet, track: &mut Vec<SheetTrack>, op: &Op, counter: 
                 edits.clear();
             }
         }
+        Op::ProbePastEnd(k) => {
+            if book.get_sheet_mut(&(n + *k as usize)).is_some() {
+                return Err("get_sheet_mut past the end returned a sheet".into());
+            }
+        }
+        Op::EditActive { col, row, value } => {
+            let i = *book.get_workbook_view().get_active_tab() as usize;
+            if i < n {
+                let ws = book.get_active_sheet_mut();
+                apply_value(ws.get_cell_mut((*col, *row)), value);
+                track[i].loaded = true;
+                track[i].edited = true;
+                edits.retain(|e| !(e.0 == i && e.1 == *col && e.2 == *row));
+                edits.push((i, *col, *row, value.text()));
+            }
+        }
     }
     Ok(())
 }
@@ -261,6 +284,8 @@ fn op_name(op: &Op) -> &'static str {
         Op::Rename(_) => "set_sheet_name",
         Op::InsertRow { .. } => "insert_row",
         Op::RemoveRow { .. } => "remove_row",
+        Op::ProbePastEnd(_) => "get_sheet_mut_past_end",
+        Op::EditActive { .. } => "edit_active_sheet",
     }
 }
 
@@ -337,7 +362,7 @@ fn check(case: &Case, obs: &mut Obs) -> Verdict {
     let mut changes = false;
     for (k, op) in case.ops.iter().enumerate() {
         obs.class(format!("op:{}", op_name(op)));
-        if !matches!(op, Op::ReadSheet(_) | Op::GetSheetMut(_) | Op::GetSheetByNameMut(_) | Op::ReadAll) {
+        if !matches!(op, Op::ReadSheet(_) | Op::GetSheetMut(_) | Op::GetSheetByNameMut(_) | Op::ReadAll | Op::ProbePastEnd(_)) {
             changes = true;
         }
         let re = guard(|| apply(&mut eager, &mut track_e, op, &mut ce, &mut edits_e));
